@@ -991,6 +991,17 @@ def stream_ptr(rng, tier):
         yield "ptr i ref %s" % hx(s)
         if "é" not in s:
             yield "ptr u ref %s" % hx(s)
+    # a delimiter repeated more often than any small inline buffer of positions could hold
+    for k in [1, 3, 4, 5, 6, 9, 17, 33, 70]:
+        reps = ["s://" + "a:" * k + "b@h:80/p", "s://" + ":" * k + "@h:80/p", "s://u@" + "a." * k + "b:80/",
+                "s://u:p@[" + "1:" * min(k, 7) + "1]:80/", "s://h/" + "a/" * k + "b", "s://h/p?" + "a=b&" * k + "c",
+                "s://h/p?" + "?" * k, "s://h/p#" + "?/:@" * k, "s:" + "a:" * k + "b", "s://h:80/" + "../" * k + "x",
+                "//" + "a:" * k + "b@h:80", "//u@h:" + "8" * k, "s://h/" + "%41" * k, "/" * k, "s://" + "%3A" * k + "@h/"]
+        for s0 in reps:
+            for f in "ui":
+                yield "ptr %s ref %s" % (f, hx(s0))
+                if s0.startswith("s:"):
+                    yield "ptr %s full %s" % (f, hx(s0))
     n = 3000 if tier == "quick" else 100000
     for _ in range(n):
         f = rng.choice("ui")
